@@ -15,6 +15,7 @@ from ..model import (walk, dotted, call_name, kwarg, unparse, short, UNKNOWN,
 from ..cfg import cfg_of
 from ..flow import Deps, Exploration
 from .. import idioms as I
+from .c14 import Interp, UNK
 
 SESS = ('session.py', 'Session')
 COMP = 'utils/component.py'
@@ -287,6 +288,104 @@ def extract_table(prog, rep, cw, fwd, pubvar):
     return table, sorted(unknown_tests)
 
 
+def _consistent(table, fwd, unknown):
+    """two paths that agree on every log switch they both test must have the
+    same outcome; otherwise the outcome depends on a test that is neither a
+    protocol atom nor a recognised log switch"""
+    for combo, outs in table.items():
+        outs_l = sorted(outs, key=repr)
+        for i, (sw1, e1) in enumerate(outs_l):
+            for sw2, e2 in outs_l[i + 1:]:
+                d1, d2 = dict(sw1), dict(sw2)
+                if e1 != e2 and all(d1[k] == d2[k] for k in d1 if k in d2):
+                    raise AnalysisError(
+                        'UNRECOGNISED-IDIOM %s: for [%s] the outcome depends '
+                        'on tests the extraction cannot interpret (%s)'
+                        % (fwd.where, describe(*combo),
+                           '; '.join(unknown) or 'none seen'))
+
+
+def table_by_value(prog, rep, cw, fwd, pubvar):
+    """the same table from a value interpretation of the callback on the 12
+    concrete messages (this side 'ME', another side 'OTHER'), once per value
+    of every recognised log switch; None if some outcome is not decided"""
+    import itertools
+    params = fwd.params
+    if len(params) < 2:
+        return None
+    msg = params[1]
+    g = cfg_of(fwd)
+    switches = sorted({Atoms.log_switch(n.ast) for n in g.nodes
+                       if n.kind == 'test' and Atoms.log_switch(n.ast) and
+                       isinstance(n.ast, ast.Name)})
+    if len(switches) > 3:
+        return None
+    sess = prog.cls(*SESS)
+    table = {}
+    for P in (True, False):
+        for O in (True, False):
+            for F in (True, False):
+                for M in ((True, False) if O else (None,)):
+                    outs = set()
+                    for vals in itertools.product((True, False),
+                                                  repeat=len(switches)):
+                        m = {}
+                        if O:
+                            m['origin'] = 'ME' if M else 'OTHER'
+                        if F:
+                            m['fwd'] = True
+                        puts = []
+
+                        def observe(fn, node, env, puts=puts):
+                            if fn is not fwd or node.kind != 'stmt' or \
+                                    node.ast is None:
+                                return
+                            for c in calls_in(node.ast):
+                                if isinstance(c.func, ast.Attribute) and \
+                                        c.func.attr == 'put' and \
+                                        unparse(c.func.value) == pubvar:
+                                    v = ip.ev(fn, c.args[1], env) \
+                                        if len(c.args) == 2 else UNK
+                                    puts.append((env.get('@p', 0), c, v))
+                                    env['@p'] = env.get('@p', 0) + 1
+                        inputs = dict(zip(switches, vals))
+                        inputs.update({'from_proxy': P, 'self._module': 'ME'})
+                        ip = Interp(prog, sess, inputs=inputs,
+                                    observe=observe)
+                        exits = ip.run(fwd, {msg: m, params[0]: 'topic'})
+                        # every feasible path must agree on the sequence of
+                        # puts: group by the '@p' counter at the exits
+                        counts = {dict(fe).get('@p', 0) for fe in exits}
+                        if len(counts) != 1 or not exits:
+                            return None
+                        n = counts.pop()
+                        seq = {}
+                        for i, c, v in puts:
+                            seq.setdefault(i, set()).add(
+                                (id(c), repr(v) if isinstance(v, dict)
+                                 else None))
+                        if any(len(x) != 1 for x in seq.values()) or \
+                                len(seq) != n:
+                            return None
+                        eff = []
+                        for i in range(n):
+                            hit = [(c, v) for j, c, v in puts if j == i][0]
+                            c, v = hit
+                            if not isinstance(v, dict) or \
+                                    any(x is UNK for x in v.values()):
+                                return None
+                            eff.append(('put', 'origin' in v,
+                                        v.get('origin') == 'ME'
+                                        if 'origin' in v else None,
+                                        bool(v.get('fwd')),
+                                        len(c.args) == 2 and
+                                        unparse(c.args[0]) == 'tgt', True))
+                        outs.add((tuple(zip(switches, vals)), tuple(eff)))
+                    table[(P, O, M, F)] = outs
+    rep.stat('value_runs', 12 * (2 ** len(switches)))
+    return table
+
+
 def describe(P, O, M, F):
     origin = 'no origin tag' if not O else ('origin = this side' if M else
                                              'origin = another side')
@@ -304,7 +403,20 @@ def r16_1(prog, rep, rid='R16.1'):
     cw, fwd, sub, pub, pubvar = forwarder(prog)
     rep.saw(cw)
     rep.saw(fwd)
-    table, unknown = extract_table(prog, rep, cw, fwd, pubvar)
+    try:
+        table, unknown = extract_table(prog, rep, cw, fwd, pubvar)
+        _consistent(table, fwd, unknown)
+    except AnalysisError as e:
+        # the predicate abstraction does not understand the shape (cached
+        # locals, verdict variables, helpers): evaluate the callback on
+        # concrete messages instead; if that is not conclusive either, the
+        # shape stays unrecognised
+        table = table_by_value(prog, rep, cw, fwd, pubvar)
+        if table is None:
+            raise e
+        unknown = []
+        rep.info(rid, fwd, 'decision table extracted by value '
+                 'interpretation (predicate abstraction: %s)' % str(e)[:120])
     for combo in sorted(table, key=lambda c: tuple(str(x) for x in c)):
         P, O, M, F = combo
         outs = table[combo]
@@ -313,19 +425,7 @@ def r16_1(prog, rep, rid='R16.1'):
         what = describe(P, O, M, F)
         key = 'P=%d O=%d M=%s F=%d' % (P, O, {True: '1', False: '0',
                                                None: '-'}[M], F)
-        # two paths that agree on every log switch they both test must have
-        # the same outcome; otherwise the outcome depends on a test that is
-        # neither a protocol atom nor a recognised log switch
         outs_l = sorted(outs, key=repr)
-        for i, (sw1, e1) in enumerate(outs_l):
-            for sw2, e2 in outs_l[i + 1:]:
-                d1, d2 = dict(sw1), dict(sw2)
-                if e1 != e2 and all(d1[k] == d2[k] for k in d1 if k in d2):
-                    raise AnalysisError(
-                        'UNRECOGNISED-IDIOM %s: for [%s] the outcome depends '
-                        'on tests the extraction cannot interpret (%s)'
-                        % (fwd.where, what, '; '.join(unknown) or
-                           'none seen'))
 
         def judge(eff):
             puts = [e for e in eff if e[0] == 'put']
@@ -457,28 +557,42 @@ def r16_2(prog, rep, rid='R16.2'):
     xp = prog.method(SESS[0], SESS[1], '_crosswire_proxy')
     rep.saw(xp)
     cwp = [p for p in cw.params if p != 'self']
+    # the wiring calls by value: the method is interpreted (loops over
+    # constant tables are unrolled), every call of crosswire_pubsub is
+    # recorded with the values of its arguments
+    cm = prog.module(CONST)
+    name_of = {}
+    for nm in cm.assigns:
+        v = prog.fold(cm, ast.Name(id=nm, ctx=ast.Load()))
+        if isinstance(v, str) and nm.isupper():
+            name_of.setdefault(v, nm)
+    seen = {}
+
+    def observe(fn, node, env):
+        if fn is not xp or node.kind != 'stmt' or node.ast is None:
+            return
+        for c in calls_in(node.ast):
+            if call_name(c) != 'self.crosswire_pubsub':
+                continue
+            vals = {}
+            for i, pn in enumerate(cwp):
+                e = kwarg(c, pn, i)
+                vals[pn] = ip.ev(fn, e, env) if e is not None else UNK
+            seen[(id(c), repr(vals))] = (c, vals)
+
+    ip = Interp(prog, sess, observe=observe)
+    ip.run(xp, {})
     rows = []
-    for c in calls_in(xp.node):
-        if call_name(c) != 'self.crosswire_pubsub':
-            continue
-        vals = {}
-        for i, p in enumerate(cwp):
-            vals[p] = kwarg(c, p, i)
-        if any(vals.get(p) is None for p in ('src', 'tgt', 'from_proxy')):
-            raise AnalysisError('UNRECOGNISED-IDIOM %s: %s' % (xp.where,
-                                                               short(c)))
-        names = {}
-        for p in ('src', 'tgt'):
-            e = vals[p]
-            v = prog.fold(xp.module, e, xp.cls)
-            if not isinstance(e, ast.Attribute) or v is UNKNOWN:
-                raise AnalysisError('UNRECOGNISED-IDIOM %s: channel is not a '
-                                    'constant of constants.py: %s'
-                                    % (xp.where, short(c)))
-            names[p] = e.attr
-        fp = vals['from_proxy']
-        fp = fp.value if isinstance(fp, ast.Constant) else UNKNOWN
-        rows.append((c, names['src'], names['tgt'], fp))
+    for c, vals in seen.values():
+        if any(vals.get(pn) is UNK for pn in ('src', 'tgt', 'from_proxy')) \
+                or vals['src'] not in name_of or vals['tgt'] not in name_of \
+                or not isinstance(vals['from_proxy'], bool):
+            raise AnalysisError('UNRECOGNISED-IDIOM %s: arguments of %s are '
+                                'not constants of constants.py / a boolean'
+                                % (xp.where, short(c)))
+        rows.append((c, name_of[vals['src']], name_of[vals['tgt']],
+                     vals['from_proxy']))
+    rows.sort(key=lambda r: (r[1], r[2]))
     if len(rows) < 4:
         raise AnalysisError('R16.2: fewer than 4 crosswire_pubsub calls in %s'
                             % xp.where)
@@ -487,7 +601,8 @@ def r16_2(prog, rep, rid='R16.2'):
         sp, tpx = s.startswith('PROXY_'), t.startswith('PROXY_')
         twin = (sp != tpx) and (s[6:] == t if sp else t[6:] == s)
         rep.check(twin and fp is (True if sp else False), rid, xp,
-                  '%s -> %s with from_proxy=%s' % (s, t, fp), construct=c,
+                  '%s -> %s with from_proxy=%s' % (s, t, fp),
+                  construct='wire %s -> %s' % (s, t),
                   message='%s: %s is wired to %s with from_proxy=%s: a local '
                   'channel must be wired to its PROXY_ twin and back, with '
                   'from_proxy true exactly when the source is the PROXY_ '
@@ -542,6 +657,29 @@ def _reassigned(f, name):
     return False
 
 
+def _published(prog, rep, f, cls, channel, cmd, env0):
+    """values of the 'fwd' item of every {'cmd': cmd} message that f publishes
+    on `channel` when started with env0 ('<missing>' if the key is absent);
+    UNK if a message cannot be evaluated"""
+    out = []
+
+    def observe(fn, node, env):
+        if fn is not f or node.kind != 'stmt' or node.ast is None:
+            return
+        for c in calls_in(node.ast):
+            if I.is_publish(c, prog, f, channel) and len(c.args) >= 2:
+                v = ip.ev(fn, c.args[1], env)
+                if not isinstance(v, dict):
+                    out.append((c, UNK))
+                elif v.get('cmd') == cmd:
+                    out.append((c, v.get('fwd', '<missing>')))
+
+    ip = Interp(prog, cls, observe=observe)
+    ip.run(f, env0)
+    rep.stat('interp_states', ip.states)
+    return out
+
+
 def r16_3(prog, rep, rid='R16.3', tier='quick'):
     rep.rule(rid, 'state updates carry the fwd flag of advance(): default true '
              'for AgentComponent, false for ClientComponent, passed through '
@@ -553,33 +691,32 @@ def r16_3(prog, rep, rid='R16.3', tier='quick'):
         raise AnalysisError('anchor BaseComponent.advance(fwd=) not found')
     rep.saw(badv)
     state_ch = prog.const(CONST, 'STATE_PUBSUB')
-    hit = None
-    for c in calls_in(badv.node):
-        if I.is_publish(c, prog, badv, state_ch) and len(c.args) >= 2 and \
-                isinstance(c.args[1], ast.Dict):
-            kv = {k.value: v for k, v in zip(c.args[1].keys, c.args[1].values)
-                  if isinstance(k, ast.Constant)}
-            if prog.fold(badv.module, kv.get('cmd', ast.Constant(None))) \
-                    == 'update':
-                hit = (c, kv)
-    if hit is None:
-        raise AnalysisError('UNRECOGNISED-IDIOM %s: publication of the '
-                            "{'cmd': 'update'} message not found" % badv.where)
-    c, kv = hit
-    v = kv.get('fwd')
-    rep.check(isinstance(v, ast.Name) and v.id == 'fwd' and
-              not _reassigned(badv, 'fwd'), rid, badv,
-              "the update message carries 'fwd': fwd", construct=c,
+    # the update message carries the caller's flag: interpret advance() for
+    # both values of fwd and look at the message that is published
+    got = {}
+    site = None
+    for v in (True, False):
+        pubs = _published(prog, rep, badv, base, state_ch, 'update',
+                          {'fwd': v})
+        if not pubs or any(x is UNK for _, x in pubs):
+            raise AnalysisError('UNRECOGNISED-IDIOM %s: publication of the '
+                                "{'cmd': 'update'} message not found / not "
+                                'evaluable' % badv.where)
+        got[v] = sorted({x for _, x in pubs}, key=repr)
+        site = pubs[0][0]
+    okb = got[True] == [True] and got[False] == [False]
+    lost = got[True] != [True]
+    rep.check(okb, rid, badv, "the update message carries 'fwd': fwd",
+              construct='update:fwd',
               message="BaseComponent.advance publishes the state update with "
-              "'fwd': %s instead of the caller's fwd argument: %s"
-              % (short(v, 30) if v is not None else '<missing>',
-                 'agent-side state updates never reach the client'
-                 if v is None or isinstance(v, ast.Constant) and not v.value
+              "'fwd': %s for fwd=True and %s for fwd=False instead of the "
+              "caller's fwd argument: %s"
+              % (got[True], got[False],
+                 'agent-side state updates never reach the client' if lost
                  else 'updates that must stay local are sent to every side'),
-              loc=badv.loc(c),
+              loc=badv.loc(site),
               history='agent advances a task to DONE: the client task manager '
-              'never sees the update' if v is None or isinstance(
-                  v, ast.Constant) and not v.value else
+              'never sees the update' if lost else
               'client-side advance with fwd=False is forwarded to all pilots')
     fpos = [p for p in badv.params if p != 'self'].index('fwd')
     for cname, want in (('AgentComponent', True), ('ClientComponent', False)):
@@ -590,7 +727,7 @@ def r16_3(prog, rep, rid='R16.3', tier='quick'):
             f = badv
         rep.saw(f)
         dv = _param_default(f, 'fwd')
-        dval = dv.value if isinstance(dv, ast.Constant) else UNKNOWN
+        dval = prog.fold(f.module, dv, k) if dv is not None else UNKNOWN
         rep.check(dval is want, rid, f, '%s.advance: fwd defaults to %s'
                   % (cname, want), construct='%s.advance(fwd=)' % cname,
                   message='%s.advance has fwd=%s as default, the protocol '
@@ -606,65 +743,58 @@ def r16_3(prog, rep, rid='R16.3', tier='quick'):
                   'receive the client-local update')
         if f is badv:
             continue
-        sup = [c for c in calls_in(f.node)
-               if call_name(c) == 'super().advance' or
-               call_name(c).endswith('BaseComponent.advance')]
-        if not sup:
-            raise AnalysisError('UNRECOGNISED-IDIOM %s: no super().advance '
-                                'call' % f.where)
-        for c in sup:
-            off = 1 if call_name(c).endswith('BaseComponent.advance') else 0
-            a = kwarg(c, 'fwd', fpos + off)
-            rep.check(isinstance(a, ast.Name) and a.id == 'fwd' and
-                      not _reassigned(f, 'fwd'), rid, f,
-                      '%s.advance passes fwd on unchanged' % cname,
-                      construct=c,
-                      message='%s.advance calls the base advance with fwd=%s: '
-                      'the flag chosen by the caller (or the default) is '
-                      'lost' % (cname, short(a, 20) if a is not None else
-                                '<base default>'), loc=f.loc(c),
-                      history='agent component advances a task: the update '
-                      'is published with the wrong forward flag')
+        # pass-through by value
+        passed = {}
+        csite = None
+        for v in (True, False):
+            seen = []
+
+            def observe(fn, node, env, seen=seen, f=f):
+                if fn is not f or node.kind != 'stmt' or node.ast is None:
+                    return
+                for c in calls_in(node.ast):
+                    cn = call_name(c)
+                    if cn == 'super().advance' or \
+                            cn.endswith('BaseComponent.advance'):
+                        off = 1 if cn.endswith('BaseComponent.advance') else 0
+                        a = kwarg(c, 'fwd', fpos + off)
+                        seen.append((c, ip.ev(fn, a, env) if a is not None
+                                     else '<base default>'))
+            ip = Interp(prog, k, observe=observe)
+            ip.run(f, {'fwd': v})
+            if not seen:
+                raise AnalysisError('UNRECOGNISED-IDIOM %s: no super().advance '
+                                    'call' % f.where)
+            if any(x is UNK for _, x in seen):
+                raise AnalysisError('UNRECOGNISED-IDIOM %s: fwd argument of '
+                                    'the base call is not evaluable'
+                                    % f.where)
+            passed[v] = sorted({x for _, x in seen}, key=repr)
+            csite = seen[0][0]
+        rep.check(passed[True] == [True] and passed[False] == [False], rid, f,
+                  '%s.advance passes fwd on unchanged' % cname,
+                  construct='%s.advance:pass' % cname,
+                  message='%s.advance calls the base advance with fwd=%s for '
+                  'fwd=True and %s for fwd=False: the flag chosen by the '
+                  'caller (or the default) is lost'
+                  % (cname, passed[True], passed[False]), loc=f.loc(csite),
+                  history='agent component advances a task: the update '
+                  'is published with the wrong forward flag')
     ctrl = prog.const(CONST, 'CONTROL_PUBSUB')
     for (rel, cn), mname in ((TMGR, 'cancel_tasks'), (PMGR, 'cancel_pilots')):
         f = prog.method(rel, cn, mname)
         rep.saw(f)
-        dicts = []
-        for n in walk(f.node):
-            if isinstance(n, ast.Dict):
-                kv = {k.value: v for k, v in zip(n.keys, n.values)
-                      if isinstance(k, ast.Constant)}
-                if 'cmd' in kv and prog.fold(f.module, kv['cmd']) == mname:
-                    dicts.append((n, kv))
-        if len(dicts) != 1:
-            raise AnalysisError("UNRECOGNISED-IDIOM %s: expected one {'cmd': "
-                                "%r} message literal" % (f.where, mname))
-        n, kv = dicts[0]
-        published = False
-        dd = Deps(f.node)
-        for c in calls_in(f.node):
-            if I.is_publish(c, prog, f, ctrl) and len(c.args) >= 2:
-                if c.args[1] is n:
-                    published = True
-                elif isinstance(c.args[1], ast.Name):
-                    dv = _single_def(f, c.args[1].id)
-                    if dv is n:
-                        published = True
-        if not published:
+        pubs = _published(prog, rep, f, prog.cls(rel, cn), ctrl, mname, {})
+        if not pubs or any(x is UNK for _, x in pubs):
             raise AnalysisError('UNRECOGNISED-IDIOM %s: the %s message is not '
-                                'published on the control pubsub'
-                                % (f.where, mname))
-        fv = kv.get('fwd')
-        val = fv.value if isinstance(fv, ast.Constant) else (
-            None if fv is None else UNKNOWN)
-        if val is UNKNOWN:
-            raise AnalysisError('UNRECOGNISED-IDIOM %s: fwd flag of the %s '
-                                'message is not a constant' % (f.where, mname))
-        rep.check(val is True, rid, f, "the %s request is published with "
-                  "'fwd': True" % mname, construct=n,
-                  message="%s.%s publishes the request with fwd=%r: it stays "
+                                'published on the control pubsub (or cannot '
+                                'be evaluated)' % (f.where, mname))
+        vals = sorted({x for _, x in pubs}, key=repr)
+        rep.check(vals == [True], rid, f, "the %s request is published with "
+                  "'fwd': True" % mname, construct='%s:fwd' % mname,
+                  message="%s.%s publishes the request with fwd=%s: it stays "
                   "on the client side and the pilots' components never see "
-                  "it" % (cn, mname, val), loc=f.loc(n),
+                  "it" % (cn, mname, vals), loc=f.loc(pubs[0][0]),
                   history='application calls %s(): %s' % (
                       mname, 'tasks already on a pilot keep running'
                       if mname == 'cancel_tasks' else
